@@ -46,6 +46,8 @@ func zzUpdates() []zzUpd {
 		{"incradd", func(gp *GenginePool) error { return zzExplored(func() error { return gp.UpdatePooledRulesIncremental(zzVText(2, false, "cd")) }) }, map[string]int64{"a": 1, "b": 1, "c": 2, "d": 2}},
 		{"remove", func(gp *GenginePool) error { return gp.RemoveRules([]string{"c"}) }, map[string]int64{"a": 1, "b": 1}},
 		{"clear", func(gp *GenginePool) error { gp.ClearPoolRules(); return nil }, map[string]int64{}},
+		{"incrmove", func(gp *GenginePool) error { return zzExplored(func() error { return gp.UpdatePooledRulesIncremental(zzVRule("b", 2, "8", false)) }) }, map[string]int64{"a": 1, "b": 2, "c": 1}},
+		{"removefirst", func(gp *GenginePool) error { return gp.RemoveRules([]string{"a"}) }, map[string]int64{"b": 1, "c": 1}},
 		{"incrmix", func(gp *GenginePool) error { return zzExplored(func() error { return gp.UpdatePooledRulesIncremental(zzVText(2, false, "nbmc")) }) }, map[string]int64{"a": 1, "n": 2, "b": 2, "m": 2, "c": 2}},
 	}
 }
@@ -290,9 +292,12 @@ func %s() {
 		{"remove_incradd", []int{4, 3}, "map[string]int64{\"a\": 1, \"b\": 1, \"c\": 2, \"d\": 2}"},
 		{"incr_remove", []int{2, 4}, "map[string]int64{\"a\": 1, \"b\": 2}"},
 		{"full_incradd_clear_incr", []int{1, 3, 5, 2}, "map[string]int64{\"b\": 2}"},
-		{"incrmix", []int{6}, "map[string]int64{\"a\": 1, \"n\": 2, \"b\": 2, \"m\": 2, \"c\": 2}"},
-		{"remove_incrmix", []int{4, 6}, "map[string]int64{\"a\": 1, \"n\": 2, \"b\": 2, \"m\": 2, \"c\": 2}"},
-		{"incradd_incrmix", []int{3, 6}, "map[string]int64{\"a\": 1, \"n\": 2, \"b\": 2, \"m\": 2, \"c\": 2, \"d\": 2}"},
+		{"incrmove", []int{6}, "map[string]int64{\"a\": 1, \"b\": 2, \"c\": 1}"},
+		{"removefirst_incr", []int{7, 2}, "map[string]int64{\"b\": 2, \"c\": 1}"},
+		{"removefirst_incrmove", []int{7, 6}, "map[string]int64{\"b\": 2, \"c\": 1}"},
+		{"incrmix", []int{8}, "map[string]int64{\"a\": 1, \"n\": 2, \"b\": 2, \"m\": 2, \"c\": 2}"},
+		{"remove_incrmix", []int{4, 8}, "map[string]int64{\"a\": 1, \"n\": 2, \"b\": 2, \"m\": 2, \"c\": 2}"},
+		{"incradd_incrmix", []int{3, 8}, "map[string]int64{\"a\": 1, \"n\": 2, \"b\": 2, \"m\": 2, \"c\": 2, \"d\": 2}"},
 	}
 	for _, sq := range seqs {
 		name := "V_" + sq.id
@@ -598,7 +603,7 @@ func %s() {
 	}
 	for ui, u := range []string{"full", "fullset", "incr", "incradd", "remove", "clear"} {
 		for _, m := range []poolCall{{"Execute", "gp.Execute(data, true)", 0}, {"ExecuteNSortMConcurrent", "gp.ExecuteNSortMConcurrent(1, 1, true, data)", 0}, {"ExecuteDAGModel", "gp.ExecuteDAGModel([][]string{{\"a\"}, {\"b\"}}, data)", 0}, {"ExecuteRulesWithMultiInputWithSpecifiedEM", "gp.ExecuteRulesWithMultiInputWithSpecifiedEM(data)", 0}} {
-			if tier != "thorough" && m.name != "Execute" && !(u == "full" || u == "incr" || u == "clear") {
+			if tier != "thorough" && m.name != "Execute" && !(u == "full" || u == "incr" || u == "clear" || (u == "remove" && m.name == "ExecuteDAGModel")) {
 				continue
 			}
 			name := fmt.Sprintf("U_%s_%s", m.name, u)
